@@ -321,8 +321,8 @@ def entity_roundtrip(ctx, n):
         class T(db.Entity):
             _table_ = 'T' + n
             id = PrimaryKey(int, auto=True)
-            v = Required(str, column=n)
-            w = Optional(str, column=n + "'2")
+            v = Required(str, column=n, autostrip=False)   # autostrip is a documented validation feature (C08), not part of this property
+            w = Optional(str, column=n + "'2", autostrip=False)
         db.bind('sqlite', ':memory:')
         db.generate_mapping(create_tables=True)
         with db_session:
@@ -435,8 +435,8 @@ def like_queries(ctx, strings):
     xs = list(dict.fromkeys(xs + more[:ctx.scale(40, 1200)]))
     db = Database()
     class E(db.Entity):
-        name = Optional(str)
-        tag = Optional(str)
+        name = Optional(str, autostrip=False)
+        tag = Optional(str, autostrip=False)
     db.bind('sqlite', ':memory:')
     db.generate_mapping(create_tables=True)
     with db_session:
